@@ -21,7 +21,8 @@ CHECKS = {
            "the result of the byte-at-a-time loop (proved at word level for any OR of n, n-rep(c), (n^rep(c))-lsb terms, instantiated on the mask "
            "expressions and tables translated from string.go), (2) the emitted literal is a well-formed JSON string body with no raw control, quote, "
            "backslash and (HTML on) no raw <,>,&, (3) the buffer-mode scanner + in-place unescape model decodes it back to the original "
-           "(bytes the rune decoder rejects become U+FFFD when normalising). Tied by ~10^5 model-vs-implementation cases per run (all strings <=2 bytes, "
+           "(bytes the rune decoder rejects become U+FFFD when normalising), (4) with HTML escaping or normalisation on the literal holds neither U+2028 "
+           "nor U+2029 as raw bytes (proved for the non-normalising HTML variant after the fix that added the case; the former refutation is gone). Tied by ~10^5 model-vs-implementation cases per run (all strings <=2 bytes, "
            "byte classes x offsets 0..17 x lengths 4..40, literals of <=3 items), plus implementation-vs-encoding/json as value, key, interface, "
            "UnmarshalText, Token, buffer and stream (whole and 1-byte readers). Partial: stream-mode and key unescapers are compared, not modelled; "
            "the rune decoder is proved against itself (sanitize), not yet against a declarative UTF-8 definition."),
